@@ -405,4 +405,4 @@ var subHist = runlog.Register(&runlog.Sub[HCase]{
 	Run:  runHist,
 })
 
-func TestOptionHistory(t *testing.T) { subHist.Check(t, 48000, 800000) }
+func TestOptionHistory(t *testing.T) { subHist.Check(t, 48000, 400000) }
